@@ -402,6 +402,43 @@ void h_roundtrip(void)
 }
 #endif
 
+
+/* ---------- chunked encoding: update(L1 bytes); update(L2 bytes); final  ==  one-shot encode_raw of the concatenation ----------
+ * (multi-call histories on one context: the partial group buffered by the first call must be completed by the second).
+ * L1, L2 are compile-time constants of the target, so every loop has a constant bound: complete for that shape,
+ * for all byte contents. */
+#if defined(T_CHUNKED)
+void h_chunked(void)
+{
+    uint8_t x[L1 + L2];
+    char enc[BASE64_ENCODE_LENGTH(L1) + BASE64_ENCODE_LENGTH(L2) + BASE64_ENCODE_FINAL_LENGTH + 4];
+    char ref[BASE64_ENCODE_RAW_LENGTH(L1 + L2) + 1];
+    struct base64_encode_ctx e;
+    base64_encode_init(&e);
+    size_t k = base64_encode_update(&e, enc, L1, x);
+    k += base64_encode_update(&e, enc + k, L2, x + L1);
+    k += base64_encode_final(&e, enc + k);
+    base64_encode_raw(ref, L1 + L2, x);
+    __CPROVER_assert(k == BASE64_ENCODE_RAW_LENGTH(L1 + L2), "ensures: chunked encoding has the padded length of the whole input");
+#ifdef TWIN_CHUNKED
+    __CPROVER_assert(!(g < k) || enc[g] != ref[g], "ensures: TWIN (negated) chunked == one-shot");
+#else
+    __CPROVER_assert(!(g < k) || enc[g] == ref[g], "ensures: chunked encoding == one-shot encoding, byte for byte (ghost index)");
+#endif
+    struct base64_decode_ctx d;
+    base64_decode_init(&d);
+    uint8_t out[BASE64_DECODE_LENGTH(BASE64_ENCODE_RAW_LENGTH(L1 + L2)) + 1]; size_t n = 0;
+    int ok = base64_decode_update(&d, &n, out, k, enc);
+    int fin = base64_decode_final(&d);
+    __CPROVER_assert(ok == 1 && fin == 1 && n == L1 + L2, "ensures: decoding the chunked encoding is accepted with the original length");
+    __CPROVER_assert(!(g < L1 + L2) || out[g] == x[g], "ensures: decode(chunked encode(x))[g] == x[g] (ghost index)");
+#ifdef REACH
+    __CPROVER_assert(!(x[0] == 0xff && enc[0] == '/'), "reach: first byte 0xff encodes to '/'");
+    __CPROVER_assert(!(x[L1 + L2 - 1] == 0), "reach: last byte zero");
+#endif
+}
+#endif
+
 /* ---------- malformed quads: a 4-character input without white space is accepted by update+final IFF it is a canonical quad ---------- */
 #if defined(T_STRICT4)
 void h_strict4(void)
